@@ -222,6 +222,10 @@ TrFromGreg == IsOp("from_greg") /\ KeepD /\
             /\ (ok \/ Has(E.res, "err"))
             /\ X!EFromGreg(E.ts, E.y, E.m, E.d, E.hh, E.mi, E.ss, E.ns, ok, r)
             /\ (ok => M!Canonical(<<E.res.c, Mg(E.res.n)>>))
+(* years at the limits of the machine types (beyond what the calendar of the specification evaluates on     *)
+(* TLC's integers): a canonical value in that scale or an error - never a panic, never a missed deadline     *)
+TrFromGregFar == IsOp("from_greg_far") /\ KeepD /\ KeepE
+            /\ (Has(E.res, "err") \/ (IsEp(E.res) /\ E.res.ts = E.ts /\ M!Canonical(<<E.res.c, Mg(E.res.n)>>)))
 TrIsValid == IsOp("is_valid") /\ KeepD /\ KeepE
             /\ Has(E.res, "v") /\ E.res.v \in BOOLEAN
             /\ (X!MustAccept(E.y, E.m, E.d, E.hh, E.mi, E.ss, E.ns) => E.res.v = TRUE)
@@ -374,7 +378,7 @@ EpochNext1 ==
   \/ TrRefConst \/ TrOffsetConsts \/ TrLeapDump \/ TrLeapNaif \/ TrLeapQuery \/ TrLeapFile \/ TrLeapWith
   \/ TrELoad \/ TrEAdd \/ TrESub \/ TrEAddU \/ TrESubU \/ TrEAddF \/ TrESubE
   \/ TrToScale \/ TrToDur \/ TrECmp \/ TrERange \/ TrESort \/ TrEFloor \/ TrECeil \/ TrERound
-  \/ TrFromGreg \/ TrIsValid \/ TrToGreg \/ TrWeekday \/ TrNext \/ TrPrev
+  \/ TrFromGreg \/ TrFromGregFar \/ TrIsValid \/ TrToGreg \/ TrWeekday \/ TrNext \/ TrPrev
   \/ TrFromTOW \/ TrToTOW \/ TrFromNs \/ TrToNs
 (* F1 through Epoch::floor / ceil / round (they act on the elapsed time with Duration's methods) *)
 Dev_F1E ==
